@@ -390,7 +390,7 @@ var bin32 = []string{"Fadd32", "Fsub32", "Fmul32", "Fdiv32"}
 var cmps64 = []string{"Feq64", "Fgt64", "Fge64", "Flt64", "Fle64", "Fcmp64"}
 var cmps32 = []string{"Feq32", "Fgt32", "Fge32", "Flt32", "Fle32"}
 var fromInt64 = []string{"Fintto64", "Fintto32", "Fint64to64", "Fint64to32", "Fuint64to64", "Fuint64to32"}
-var toInt64 = []string{"F64toint", "F64toint64", "F64toint32", "F64touint64"}
+var toInt64 = []string{"F64toint64", "F64toint32", "F64touint64"}
 var toInt32 = []string{"F32toint64", "F32toint32", "F32touint64"}
 var sweepFns = []string{"Fneg32", "F32to64", "F32to64to32", "F32toint32", "F32toint64", "F32touint64", "Fint32to32", "Fint32to64"}
 
@@ -676,9 +676,17 @@ func gen(w *kit.Out, r *kit.Rand, tier string) {
 	}
 	vmNames := make([]string, 0, len(vmOps))
 	for _, grp := range [][]string{bin64, bin32, cmps64[:5], cmps32, {"Fneg64", "Fneg32", "F64to32", "F32to64"},
-		{"Fint64to64", "Fint64to32", "Fint32to64", "Fint32to32", "Fuint64to64", "Fuint64to32"},
-		{"F64toint64", "F64toint32", "F64touint64", "F32toint64", "F32toint32", "F32touint64"}} {
+		{"Fintto64", "Fintto32", "Fint64to64", "Fint64to32", "Fint32to64", "Fint32to32", "Fuint64to64", "Fuint64to32"},
+		{"F64toint", "F64toint64", "F64toint32", "F64touint64", "F32toint64", "F32toint32", "F32touint64"}} {
 		vmNames = append(vmNames, grp...)
+	}
+	// integer→float boundary table through the VM's conversion glue (values_conversions.go): exact ties at the
+	// float32 / float64 cut with and without a tail that the other format cannot hold (a conversion routed through
+	// the wrong width rounds twice and is off by one ulp exactly here), both parities of the kept LSB, both signs
+	for _, v := range vmIntBoundary() {
+		for _, fn := range []string{"Fintto32", "Fint64to32", "Fuint64to32", "Fintto64", "Fint64to64", "Fuint64to64"} {
+			w.Op("vm %s %016x", fn, v)
+		}
 	}
 	for i := 0; i < nvm; i++ {
 		fn := vmNames[i%len(vmNames)]
@@ -782,4 +790,29 @@ func vmInRange32(fn string, x uint32) bool {
 		return inRange(z, minI32, maxI32)
 	}
 	return inRange(z, bigZero, maxU64) && x>>31 == 0
+}
+
+// vmIntBoundary: 64-bit patterns around the rounding ties of integer→float32/float64 conversion.
+func vmIntBoundary() []uint64 {
+	var out []uint64
+	for _, n := range []uint{26, 40, 55, 58, 61, 63, 64} {
+		for _, cut := range []uint{24, 53} {
+			if n <= cut+1 {
+				continue
+			}
+			low := n - cut
+			for _, odd := range []uint64{0, 1} {
+				top := (uint64(1)<<(cut-1) | 0x2aaaaa&(uint64(1)<<(cut-1)-1) | odd) &^ (1 - odd) // kept mantissa, chosen LSB parity
+				base := top<<low | 1<<(low-1)                                                      // exact tie
+				out = append(out, base, base+1, base-1)
+				if low > 30 {
+					out = append(out, base+1<<(low-30), base-1<<(low-30)) // tail above bit 0 but below the wider format's cut
+				}
+				if n < 64 {
+					out = append(out, -base, -(base + 1), -(base - 1)) // negative (two's complement) for the signed sources
+				}
+			}
+		}
+	}
+	return out
 }
